@@ -93,13 +93,36 @@ def negate(c):
 
 
 def infeasible(cons, max_cons=4000):
-    """Fourier-Motzkin: True if the conjunction (each c >= 0) has no rational
-    solution after integer tightening (hence no integer solution).  False means
-    'not refuted'."""
+    """True if the conjunction (each c >= 0) is refuted.  The constraints are split into the connected
+    components of their variable-sharing graph; the conjunction is infeasible iff one component is
+    (exact), and each component is decided by Fourier-Motzkin elimination."""
     cur = {}
     for c in cons:
         cur[c.key()] = c
     cur = list(cur.values())
+    parent = {}
+    def find(x):
+        while parent.setdefault(x, x) != x:
+            parent[x] = parent[parent[x]]
+            x = parent[x]
+        return x
+    for c in cur:
+        vs = list(c.co)
+        for v in vs[1:]:
+            parent[find(v)] = find(vs[0])
+    comps = {}
+    for c in cur:
+        if not c.co:
+            if c.k < 0:
+                return True
+            continue
+        comps.setdefault(find(next(iter(c.co))), []).append(c)
+    return any(_fm(cc, max_cons) for cc in sorted(comps.values(), key=len))
+
+
+def _fm(cur, max_cons):
+    """Fourier-Motzkin on one component: True if it has no rational solution after integer
+    tightening (hence no integer solution).  False means 'not refuted'."""
     while True:
         for c in cur:
             if c.is_const() and c.k < 0:
